@@ -189,6 +189,23 @@ def run_all(tier, seed):
                     ok = False
             if not ok:
                 continue
+            # ---- pickling is repeatable: the originals are untouched, and both they and the copies can be pickled again
+            try:
+                if [value(o) for o in sub] != before:
+                    fail("original-changed", f"pickling {kinds} changed the value of an original", c1)
+                for what, group in (("the originals a second time", sub), ("the unpickled objects", out), ("another object of the same context", [r.choice(objs)])):
+                    try:
+                        again = pickle.loads(pickle.dumps(group))
+                    except Exception as ex:
+                        fail("second-pickle-raises:" + type(ex).__name__, f"pickling {what}: {str(ex)[:160]}", c1)
+                        break
+                    if group is not sub and group is not out:
+                        value(again[0])
+                    elif [value(o) for o in again] != before:
+                        fail("value-differs", f"pickling {what} gives different values", c1)
+                tags["repickle"] += 1
+            except Exception as ex:
+                fail("unusable:" + type(ex).__name__, f"after pickling, reading raises {type(ex).__name__}: {str(ex)[:160]}", c1)
             # ---- sharing pattern vs the model
             ob = []
             for o in sub:
